@@ -87,11 +87,16 @@ def call_atoms(callee, a):
             symbols = sorted(set(a.get_chemical_symbols()))
             sig = {"FrozenPhonons.iterate(per-element sigmas)": {el: 0.05 + 0.03 * i for i, el in enumerate(symbols)},
                    "FrozenPhonons.iterate(anisotropic sigmas)": {el: (0.05, 0.1, 0.02) for el in symbols},
-                   "FrozenPhonons.iterate(per-atom sigmas)": np.full((len(a), 3), 0.07)}[callee]
-            fp = abtem.FrozenPhonons(a, num_configs=2, sigmas=sig, seed=1)
+                   "FrozenPhonons.iterate(per-atom sigmas)": np.full((len(a), 3), 0.07),
+                   "FrozenPhonons.iterate(zero sigmas)": 0.0, "FrozenPhonons.iterate(one configuration)": 0.05}[callee]
+            fp = abtem.FrozenPhonons(a, num_configs=1 if "one configuration" in callee else 2, sigmas=sig, seed=1)
             from ..ms import displaced_configurations
             displaced_configurations(fp)
             abtem.Potential(fp, gpts=16, slice_thickness=2.0).build(lazy=False)
+        elif callee == "Potential.build(finite)":
+            abtem.Potential(a, gpts=16, slice_thickness=2.0, projection="finite").build(lazy=False)
+        elif callee == "Potential.project":
+            abtem.Potential(a, gpts=16, slice_thickness=1.0).project()
         elif callee == "StructureFactor":
             from abtem.bloch import StructureFactor
             StructureFactor(a, g_max=2.0).build(lazy=False) if hasattr(StructureFactor(a, g_max=2.0), "build") else None
@@ -157,9 +162,11 @@ def snap_measurement(m):
 
 
 ARGS = {
-    "interpolate": [dict(sampling=0.1)], "crop": [dict(extent=(0.6, 0.6))], "tile": [dict(repetitions=(2, 2))], "gaussian_filter": [dict(sigma=0.3)],
-    "diffractograms": [{}], "integrate_radial": [dict(inner=0.0, outer=10.0)], "integrate": [{}], "center_of_mass": [{}], "bandlimit": [dict(inner=0.0, outer=0.1)],
-    "block_direct": [{}], "gaussian_source_size": [dict(sigma=0.3)], "poisson_noise": [dict(total_dose=1e4, seed=1)], "normalize_ensemble": [{}],
+    "interpolate": [dict(sampling=0.1), dict(gpts=(9, 9)), dict(sampling=0.1, method="spline"), dict(sampling="uniform")],
+    "crop": [dict(extent=(0.6, 0.6)), dict(extent=(0.6, 0.6), offset=(0.2, 0.2))], "tile": [dict(repetitions=(2, 2))],
+    "gaussian_filter": [dict(sigma=0.3), dict(sigma=(0.3, 0.0)), dict(sigma=0.3, boundary="constant")],
+    "diffractograms": [{}], "integrate_radial": [dict(inner=0.0, outer=10.0)], "integrate": [{}], "center_of_mass": [{}, dict(units="reciprocal")], "bandlimit": [dict(inner=0.0, outer=0.1)],
+    "block_direct": [{}, dict(radius=2.0)], "gaussian_source_size": [dict(sigma=0.3)], "poisson_noise": [dict(total_dose=1e4, seed=1), dict(total_dose=1e4, samples=2, seed=0), dict(dose_per_area=1e4, seed=3)], "normalize_ensemble": [{}, dict(shift="none"), dict(scale="sum", shift="none"), dict(scale="ptp", shift="min")],
     "integrated_center_of_mass": [{}], "polar_binning": [dict(nbins_radial=2, nbins_azimuthal=2, inner=0.0, outer=10.0)],
     "radial_binning": [dict(step_size=5.0, inner=0.0, outer=10.0)], "to_cpu": [{}], "copy": [{}], "squeeze": [{}], "ensure_lazy": [{}], "compute": [{}],
     "sum": [dict(axis=0)], "mean": [dict(axis=0)], "std": [dict(axis=0)], "min": [dict(axis=0)], "max": [dict(axis=0)], "expand_dims": [{}],
@@ -224,7 +231,7 @@ def self_test(ctx: Ctx):
 
 
 def run(ctx: Ctx):
-    ctx.rule = ("calls = atoms-taking callee (13, frozen phonons with scalar / per-element / anisotropic / per-atom sigmas) x atoms kind (6: orthogonal, hexagonal, atoms outside the cell, tiny off-diagonal cell "
+    ctx.rule = ("calls = atoms-taking callee (17, frozen phonons with scalar / per-element / anisotropic / per-atom / zero sigmas, one configuration, finite projection, project) x atoms kind (6: orthogonal, hexagonal, atoms outside the cell, tiny off-diagonal cell "
                 "noise, constraints/tags, partial pbc), and measurement type (4) x complex/real x lazy/eager x every public method "
                 "with an entry in the argument table; enumerated by TLC from Ownership.tla; non-trivial = the call returns")
     r = ctx.design_check("Ownership", "Ownership.cfg", label="call space", workers=1)
